@@ -58,10 +58,24 @@ func (s *PrefixFS) prefixPath(name string) (string, error) {
 	}
 
 	p := filepath.Join(s.prefix, filepath.Clean(name))
-	if !strings.HasPrefix(p, s.prefix) {
+	if _, inside := relInside(s.prefix, p); !inside {
 		return "", syscall.EPERM
 	}
 	return p, nil
+}
+
+// relInside returns the path of name relative to dir and whether name is dir itself
+// or lies below it. The containment is checked component-wise, a sibling that merely shares
+// a string prefix with dir (dir2 next to dir) is not inside of dir.
+func relInside(dir, name string) (rel string, inside bool) {
+	rel, err := filepath.Rel(dir, name)
+	if err != nil {
+		return "", false
+	}
+	if rel == ".." || strings.HasPrefix(rel, relParent) {
+		return "", false
+	}
+	return rel, true
 }
 
 // Create creates a file in the filesystem, returning the file and an
